@@ -79,6 +79,11 @@ func ruleHint(p *Prog, r *RuleResult) {
 	s := resolveSide(p, "Writer")
 	wh := p.MethodOpt("io", "Writer", "writeHeader")
 	roots := []*ssa.Function{p.Method("io", "Writer", "Write"), p.Method("io", "Writer", "Close"), s.parent, s.fn}
+	// the constructor sizes the block buffers: it is part of the data path as far as allocations are concerned
+	ctor := p.FuncOpt("io", "createWriterWithCtx")
+	if ctor != nil {
+		roots = append(roots, ctor)
+	}
 	scope := p.Reachable(roots, func(f *ssa.Function) bool { return f == wh || exemptFn(f) || !p.InModule(f) })
 	delete(scope, wh)
 	var k keyer
@@ -116,6 +121,14 @@ func ruleHint(p *Prog, r *RuleResult) {
 						bad = "task field " + fv.Name()
 					}
 				}
+			case *ssa.MakeSlice:
+				// a byte buffer sized from the hint (block buffers must be sized from the block size alone)
+				if isByteSlice(x.Type()) && (fl.Tainted(x.Len) || fl.Tainted(x.Cap)) {
+					bad = "allocation size of a byte buffer"
+				}
+			}
+			if bad != "" && f == ctor && !strings.HasPrefix(bad, "allocation") {
+				bad = "" // the constructor may branch on the hint (it derives the advisory block count); only buffer sizes matter there
 			}
 			if bad != "" {
 				r.sink(k.key(fname, "hint."+strings.Fields(bad)[0]), p.IPos(i),
